@@ -313,6 +313,12 @@ func (s *Sim) answer(r *Req, outcome string) {
 		s.mu.Unlock()
 		return
 	}
+	if outcome == "okq" {
+		// a protocol-incorrect service: the answer for a resource that is not a
+		// query resource carries a query (hostile profile)
+		r.StrayQuery = true
+		outcome = "ok"
+	}
 	r.Answered = true
 	r.Outcome = outcome
 	if i := strings.Index(outcome, "|meta:"); i >= 0 {
@@ -521,10 +527,18 @@ func (s *Sim) answerGet(r *Req) {
 	// the first load of the variant under the current event subscription; an
 	// answer to a further get (another query normalised to the same one) is
 	// discarded by a gateway that has the variant cached
+	// (a delete event, also one the gateway derives from a not-found answer,
+	// removes the cached variant: what was loaded before it does not count)
+	lastDelete := -1
+	for _, e := range v.Stream {
+		if e.Kind == "delete" {
+			lastDelete = e.EmitStep
+		}
+	}
 	s.mu.Lock()
 	first := true
 	for _, q := range s.tr.reqs {
-		if q != r && q.Type == "get" && q.Name == r.Name && q.SubGen == r.SubGen && q.GotData {
+		if q != r && q.Type == "get" && q.Name == r.Name && q.SubGen == r.SubGen && q.GotData && q.AnsStep > lastDelete {
 			if n, ok := res.normalise(q.Query); ok && n == norm {
 				first = false
 			}
@@ -550,6 +564,12 @@ func (s *Sim) answerGet(r *Req) {
 	p := `{"result":` + snap.serviceJSON()
 	if res.IsQuery {
 		p += `,"query":` + jstr(norm)
+	} else if r.StrayQuery {
+		// the gateway takes it for a query resource normalised to this query:
+		// what it does with it is no longer what the reference model describes
+		p += `,"query":"hq=1"`
+		s.markUnsure(r)
+		s.stat("fault.stray_query_in_get_answer", 1)
 	}
 	p += "}}"
 	tr.enqueueReply(r, r.Name, []byte(p), nil, nil)
